@@ -285,6 +285,26 @@ def container_boxes(ctx, world):
                 ctx.fail("A14.containers", inst, f"autograd.builtins.{inst}", loc_of(m, bad[0]), f"{inst} {bad[1]}: `{norm_text(bad[0])[:60]}` - the contents handed out are not traced, derivative flow through them is dropped silently", "grad of a function that reads a traced container through this accessor")
             else:
                 ctx.ob("A14.containers", inst, True, loc_of(m, st))
+        # structure queries answer exactly as the raw value does (same length, same membership, same ORDER of keys)
+        for qname in ("__len__", "__iter__", "__contains__", "index", "count"):
+            fnq = next((s_ for s_ in cls.body if isinstance(s_, ast.FunctionDef) and s_.name == qname), None)
+            if fnq is None:
+                continue
+            n += 1
+            rq, syq, mq, fq_, scq = eval_function(world, "autograd.builtins", f"{cname}.{qname}")
+            selfq = syq["#0"]
+            rq = strip_seq(rq) if rq is not None else None
+            rawv = lambda t: t is not None and t.op == "attr" and t.name == "_value" and t.obj is selfq
+            params_q = [syq[a_.arg] for a_ in fnq.args.args[1:]]
+            okq = False
+            if rq is not None:
+                if rq.op == "call" and rq.fn.op == "attr" and rq.fn.name == qname and rawv(rq.fn.obj) and len(rq.args) == len(params_q) and all(a_ is b_ for a_, b_ in zip(rq.args, params_q)) and not rq.kw:
+                    okq = True  # self._value.<same query>(same operands)
+                elif qname in ("__len__", "__iter__") and rq.op == "call" and rq.fn.op == "ref" and rq.fn.ref.qual == {"__len__": "builtins.len", "__iter__": "builtins.iter"}[qname] and len(rq.args) == 1 and rawv(rq.args[0]) and not rq.kw:
+                    okq = True
+                elif qname == "__contains__" and rq.op == "cmp" and rq.opname == "In" and params_q and rq.l is params_q[0] and rawv(rq.r):
+                    okq = True
+            _okfail(ctx, "A14.containers", f"{cname}.{qname}: the raw value's own answer", okq, loc_of(m, fnq), f"{cname}.{qname} does not return the raw container's own answer to the same query (found {str(rq)[:70]}): under differentiation the container then has another length / membership / iteration order than the plain value", "a function that iterates a dict of parameters in insertion order (np.concatenate([p[k] for k in p])): the primal under grad differs from the plain call", construct=f"autograd.builtins.{cname}.{qname}:raw-answer")
         # __add__/__radd__ of SequenceBox
         if cname == "SequenceBox":
             for meth, self_side in (("__add__", "left"), ("__radd__", "right")):
